@@ -27,22 +27,31 @@ def configurations(tier):
     F = yaql.YaqlFactory
     cfgs = [('default', lambda: F()),
             ('legacy', lambda: legacy.YaqlFactory())]
+    def ins0(*calls):
+        def mk():
+            f = F()
+            for c in calls:
+                f.insert_operator(*c)
+            return f
+        mk.calls = calls
+        mk.base = F
+        return mk
     if tier != 'thorough':
-        # one customised table is cheap enough for every run
-        def c_quick():
-            f = F()
-            f.insert_operator('and', True, '^^', BIN_R, True)
-            f.insert_operator('*', True, '!', PRE, False)
-            return f
-        cfgs.append(('custom:right-group-after-and+prefix-in-mul', c_quick))
-
-        def c_quick2():
-            f = F()
-            f.insert_operator('->', True, '^^', BIN_R, True)
-            f.insert_operator('^^', True, '!', PRE, False)
-            f.insert_operator('.', True, '!!', SUF, True)
-            return f
-        cfgs.append(('custom:prefix-in-right-group+suffix-group', c_quick2))
+        # a few customised tables are cheap enough for every run; the
+        # pairs differ ONLY in grouping / associativity (same symbols, same
+        # order), which is what a cache keyed on the generated rules, or a
+        # positioning slip in insert_operator, would confuse
+        cfgs.append(('custom:right-group-after-and+prefix-in-mul', ins0(
+            ('and', True, '^^', BIN_R, True), ('*', True, '!', PRE, False))))
+        cfgs.append(('custom:left-group-after-and+prefix-in-mul', ins0(
+            ('and', True, '^^', BIN_L, True), ('*', True, '!', PRE, False))))
+        cfgs.append(('custom:prefix-in-right-group+suffix-group', ins0(
+            ('->', True, '^^', BIN_R, True), ('^^', True, '!', PRE, False),
+            ('.', True, '!!', SUF, True))))
+        cfgs.append(('custom:xor-joins-or-group', ins0(
+            ('or', True, 'xor', BIN_L, False))))
+        cfgs.append(('custom:xor-own-group-after-or', ins0(
+            ('or', True, 'xor', BIN_L, True))))
         return cfgs
     cfgs.append(('delegates', lambda: F(allow_delegates=True)))
     cfgs.append(('no-keyword-operator', lambda: F(keyword_operator=None)))
@@ -56,6 +65,8 @@ def configurations(tier):
             for c in calls:
                 f.insert_operator(*c)
             return f
+        mk.calls = calls
+        mk.base = F
         return mk
     for anchor in ('.', '*', 'or', '->', '+', '='):
         cfgs.append(('custom:right-group-after-%s' % anchor,
@@ -82,6 +93,12 @@ def configurations(tier):
     cfgs.append(('custom:prefix-in-right-group',
                  ins(('->', True, '^^', BIN_R, True),
                      ('^^', True, '!', PRE, False))))
+    cfgs.append(('custom:left-group-after-and',
+                 ins(('and', True, '^^', BIN_L, True))))
+    cfgs.append(('custom:word-op-own-group-after-or',
+                 ins(('or', True, 'xor', BIN_L, True))))
+    cfgs.append(('custom:second-op-new-group-after-arrow',
+                 ins(('->', True, '|>', BIN_R, True))))
     cfgs.append(('custom:two-new-groups',
                  ins(('and', True, '^^', BIN_R, True),
                      ('.', True, '!', SUF, True),
@@ -301,6 +318,7 @@ def check_config(rep, label, fac):
     # every string rule
     first_string = min([i for i, (t, f) in enumerate(order) if f is None]
                        or [len(order)])
+    check_created_engine(rep, label, fac, b)
     kw = pos.get('KEYWORD_STRING')
     words = [s for s in spell.values() if s[:1].isalpha() or s[:1] == '_']
     rep.ob('R02d', '%s/keyword-rule-before-string-rules' % label,
@@ -308,6 +326,96 @@ def check_config(rep, label, fac):
            'KEYWORD_STRING function rule must precede all operator string '
            'rules (word operators %s are re-typed there)' % words)
     return n_ob, items, len(b.states), len(g.Productions)
+
+
+def groups_of(operators):
+    """[set((symbol, type)), ...] in table order (NAME_VALUE_PAIR ignored)."""
+    out = [set()]
+    for rec in operators:
+        if not rec:
+            out.append(set())
+        elif rec[1] != NVP:
+            out[-1].add((rec[0], rec[1]))
+    return [g for g in out if g]
+
+
+def model_insert(groups, existing, existing_binary, new, typ, create_group):
+    """Reference model of YaqlFactory.insert_operator: the new operator
+    joins the group of the existing one, or forms a new group immediately
+    after it; with no existing operator it goes to the very front."""
+    groups = [set(g) for g in groups]
+    if existing is None:
+        if create_group:
+            return [{(new, typ)}] + groups
+        groups[0].add((new, typ))
+        return groups
+    binary = (BIN_L, BIN_R)
+    for i, g in enumerate(groups):
+        for sym, t in g:
+            if sym == existing and ((t in binary) == bool(existing_binary)):
+                if create_group:
+                    return groups[:i + 1] + [{(new, typ)}] + groups[i + 1:]
+                g.add((new, typ))
+                return groups
+    raise AnalysisError('model_insert: %r not found' % (existing,))
+
+
+def check_insert_position(rep, label, mk, fac):
+    calls = getattr(mk, 'calls', None)
+    if not calls:
+        return
+    base = mk.base()
+    want = groups_of(base.operators)
+    for c in calls:
+        want = model_insert(want, c[0], c[1], c[2], c[3], c[4])
+    got = groups_of(fac.operators)
+    rep.ob('R02g', '%s/insert-position' % label, got == want,
+           'insert_operator%s: the operator must join the group of the '
+           'existing operator or, with create_group, form a new group '
+           'immediately after it. Expected groups %s, table has %s' % (
+               list(calls), [sorted(s for s, t in g) for g in want],
+               [sorted(s for s, t in g) for g in got]),
+           loc='yaql/language/factory.py:0')
+
+
+def check_created_engine(rep, label, fac, b):
+    """R02f: the engine create() hands out carries exactly the tables
+    generated from THIS factory's operator list."""
+    try:
+        engine = fac.create()
+    except Exception as e:
+        rep.ob('R02f', '%s/create' % label, False,
+               'YaqlFactory.create() failed: %r' % (e,))
+        return
+    p = engine.parser
+    ref_prod = [str(x) for x in b.grammar.Productions]
+    got_prod = [str(x) for x in p.productions]
+    same = got_prod == ref_prod and p.action == b.table.lr_action and \
+        p.goto == b.table.lr_goto
+    diff = ''
+    if not same:
+        if got_prod != ref_prod:
+            diff = 'productions differ'
+        else:
+            for st in b.table.lr_action:
+                if p.action.get(st) != b.table.lr_action[st]:
+                    a, r = p.action.get(st) or {}, b.table.lr_action[st]
+                    keys = [k for k in set(a) | set(r) if a.get(k) !=
+                            r.get(k)]
+                    diff = 'state %d differs on look-ahead %s' % (
+                        st, sorted(keys)[:4])
+                    break
+    rep.ob('R02f', '%s/created-engine-tables' % label, same,
+           'the parser tables of the engine returned by create() are not '
+           'the tables generated from this factory\'s operator list (%s): '
+           'the engine parses with another table\'s precedence' % diff,
+           loc='yaql/language/factory.py:0')
+    ref_lex = [r.pattern for r, _ in b.lexobj.lexstatere['INITIAL']]
+    got_lex = [r.pattern for r, _ in engine.lexer.lexstatere['INITIAL']]
+    rep.ob('R02f', '%s/created-engine-lexer' % label, ref_lex == got_lex,
+           'the lexer of the engine returned by create() is not the one '
+           'generated from this factory\'s operator list',
+           loc='yaql/language/factory.py:0')
 
 
 def check_actions(repo, rep):
@@ -465,6 +573,13 @@ def run(repo, rep):
              'productions of exactly its arities; aliases reach the parser')
     rep.rule('R02d', 'LONGEST-FIRST: a token whose spelling extends another '
              'is tried first; KEYWORD_STRING precedes all string rules')
+    rep.rule('R02f', 'CREATE-RETURNS-THESE-TABLES: the engine returned by '
+             'YaqlFactory.create() carries the LALR tables and lexer '
+             'generated from this factory\'s operator list (configurations '
+             'that differ only in grouping are created back to back)')
+    rep.rule('R02g', 'INSERT-POSITION: after insert_operator the new '
+             'operator is in the group of the existing one, or in a new '
+             'group right after it (reference model of the API)')
     rep.rule('R02e', 'REDUCE-BUILDS-THE-RIGHT-NODE: p_binary/p_unary take '
              'operator and operands from the right slice positions')
     rep.trusted += ['ply 3.11 LALR table construction (yacc.LRGeneratedTable)'
@@ -487,6 +602,7 @@ def run(repo, rep):
             raise AnalysisError('configuration %s cannot be built: %r' % (
                 label, e))
         res = check_config(rep, label, fac)
+        check_insert_position(rep, label, mk, fac)
         if not res:
             continue
         n, items, nstates, nprods = res
